@@ -17,8 +17,12 @@ def validate_encoded(string):
       " for f: floats; for csi: signed integers; for CSI: unsigned integers)")
 
 def validate_decoded(numeric_array):
-  if isinstance(numeric_array, list) and \
-     not isinstance(numeric_array, gfapy.NumericArray):
+  if not isinstance(numeric_array, list):
+    raise gfapy.TypeError(
+      "the class {} is incompatible with the datatype\n"
+      .format(numeric_array.__class__.__name__)+
+      "(accepted classes: str, list, gfapy.NumericArray)")
+  if not isinstance(numeric_array, gfapy.NumericArray):
     numeric_array = gfapy.NumericArray(numeric_array)
   numeric_array.validate()
 
